@@ -69,9 +69,11 @@ def marshalRel (r : ResView) (prepath : GoString) (rel : Rel) (wantData : Bool) 
     else .ok (.obj [(K.links, links)], none)
 
 /-- The JSON value of an attribute in a resource object: `encoding/json`'s encoding,
-except that a nil non-pointer byte slice is the empty string (never null). -/
+except that a nil byte slice, held by value or behind a non-nil pointer, is the empty
+string (never null). -/
 def encodeAttr : GoVal → Json
   | .val _ (.bs none) => .str []
+  | .ptr _ (some (.bs none)) => .str []
   | v => encodeVal v
 
 /-- resource.go `MarshalResource`. `fields` is the sparse fieldset of the resource's
